@@ -51,18 +51,21 @@ Requested(o) == o.flag \/ o.ff \in ForcedFFs
 Crit == <<"sel", "dom", "sep", "cut", "force">>
 
 (* -------------------------------------------- molecules of the written system -------------------------------------------- *)
-\* segments that must share a molecule: bridged, named together in one -merge set, or everything (-merge all, -eunit all)
-SegEdges(e) ==
-  LET n == Len(e.inp.segs)
-      S == 1..n
-      together(i, j) == \/ e.o.mergeall
-                        \/ e.o.unit = "all" /\ Requested(e.o)
-                        \/ \E k \in DOMAIN e.o.merge : e.inp.segs[i] \in Range(e.o.merge[k]) /\ e.inp.segs[j] \in Range(e.o.merge[k])
-  IN Sym({<<l[1], l[2]>> : l \in Range(e.inp.links)}) \cup {p \in S \X S : p[1] # p[2] /\ together(p[1], p[2])}
+\* Molecules of the input: chain segments joined by bridges.  -merge <set> then unites, set after set, the molecules ALL of whose
+\* chain labels are in the set (merge_chains: "merged only if all the chains it comprises are part of the selection");
+\* -merge all and a requested -eunit all unite everything.
+RECURSIVE ApplyMerges(_, _, _)
+ApplyMerges(comp, labels, ms) ==
+  IF ms = <<>> THEN comp
+  ELSE LET set    == Range(Head(ms))
+           member == {i \in DOMAIN comp : {labels[j] : j \in comp[i]} \subseteq set}
+       IN ApplyMerges([i \in DOMAIN comp |-> IF i \in member THEN member ELSE comp[i]], labels, Tail(ms))
 SegComponents(e) ==
-  LET n   == Len(e.inp.segs)
-      adj == AdjTable(1..n, SegEdges(e))
-  IN [i \in 1..n |-> BallT(adj, i, n)]
+  LET n     == Len(e.inp.segs)
+      adj   == AdjTable(1..n, Sym({<<l[1], l[2]>> : l \in Range(e.inp.links)}))
+      comp0 == [i \in 1..n |-> BallT(adj, i, n)]
+  IN IF e.o.mergeall \/ (e.o.unit = "all" /\ Requested(e.o)) THEN [i \in 1..n |-> 1..n]
+     ELSE ApplyMerges(comp0, e.inp.segs, e.o.merge)
 MoleculesOK(e) ==
   LET comp == SegComponents(e)
       A    == e.f.atoms
@@ -124,11 +127,11 @@ NanMols(e) == LET A == e.f.atoms IN {A[a].mol : a \in {x \in DOMAIN A : A[x].nan
 Norm(b)     == <<Min2(b.a, b.b), Max2(b.a, b.b)>>
 PairSet(bs) == {Norm(bs[i]) : i \in DOMAIN bs}
 
-\* L (10^-5 nm = 0.01 mA) is the distance of the printed positions to within the band
+\* L (10^-5 nm = 0.1 mA) is the distance of the printed positions to within the band
 LenOK(e, b) ==
   LET p  == e.f.atoms[b.a].pos
       q  == e.f.atoms[b.b].pos
-      Lm == b.len \div 100
+      Lm == b.len \div 10
   IN /\ b.len >= 0 /\ Lm <= 40000 /\ NearBox(p, q, 26000)
      /\ (Lm <= e.tol \/ (Lm - e.tol) * (Lm - e.tol) <= D2(p, q))
      /\ D2(p, q) <= (Lm + 1 + e.tol) * (Lm + 1 + e.tol)
